@@ -1,9 +1,13 @@
 """C11 — every proximal operator returns the exact minimiser, in the input's shape.
 
-correspond: the real Prox classes / threshold functions vs the Lean model (Model/C11.lean, exact Gaussian
+correspond: (PsdProj: see psd_stream — generated body of psd_proj run on exact spectral data vs the real code, plus the
+            numerical contract of numpy's eigh)
+            the real Prox classes / threshold functions vs the Lean model (Model/C11.lean, exact Gaussian
             rationals; scalar formulas = the generated Gen/Prox.lean) on exactly representable inputs, 1e-12;
             an exact stream (fractions.Fraction object arrays through the pure-numpy classes, equality);
-            Duchi's threshold certified by the exact KKT test of theorem `l1_proj_kkt_*`.
+            Duchi's threshold: proved to satisfy the KKT hypothesis of `l1_proj_kkt_*` (`duchi_theta` for sorted
+            sequences over the generated `l1projSt` / `l1projCond`, `duchiTheta_kkt` for the executable model); the
+            exact KKT test per case (stream duchi-kkt) stays as a run-time cross-check of the compiled driver.
 search:     the property's own oracle on the real code, independent of the model: Fenchel-Young / normal-cone
             optimality certificates composed over the nesting, objective comparison against perturbations,
             projection inequality, feasible => unchanged, idempotence, output shape == input shape.
@@ -18,7 +22,8 @@ from harness import common
 from harness.translate import gen as G
 
 PROPERTY = "C11"
-LEAN_MODULES = ["SigpyVerif.Props.C11", "SigpyVerif.Props.C11Shape"]
+LEAN_MODULES = ["SigpyVerif.Props.C11", "SigpyVerif.Props.C11Shape", "SigpyVerif.Props.C11Psd",
+                "SigpyVerif.Props.C11Duchi", "SigpyVerif.Props.C11DuchiModel"]
 THEOREMS = ["SigpyVerif.C11." + t for t in [
     "prox_is_minimiser", "prox_unique", "prox_iff_variational", "proj_feasible_fixed", "proj_idempotent",
     "softThresh_real", "csoft_eq", "soft_thresh_prox_real", "soft_thresh_prox_complex",
@@ -29,11 +34,38 @@ THEOREMS = ["SigpyVerif.C11." + t for t in [
     "conj_moreau", "conj_moreau_abstract", "stack_separable₂", "stack_separable", "unitary_transform_prox",
     "l1_proj_kkt_real", "l1_proj_kkt_complex", "l1_proj_feasible",
     "hard_thresh_minimiser", "isConjOn_half_sq", "prox_shape", "l1proj_shape",
+    # thresh.psd_proj / PsdProj (Props/C11Psd.lean): generated body `Gen.Prox.psdProjWith` over Mathlib matrices
+    "psdClamp_eq", "psdEighArg_eq", "psdRecon_eq", "psd_proj_spectral", "psd_proj_skew", "psd_proj_variational",
+    "psd_proj_nearest", "psd_proj_prox", "psd_proj_prox_real", "psd_proj_prox_complex", "psd_proj_diag",
+    # Duchi's sort/cumsum index search of thresh.l1_proj (Props/C11Duchi.lean)
+    "duchi_core", "duchi_theta", "duchi_index_exists", "duchi_kkt_of_sorted", "l1_proj_duchi_real", "l1_proj_duchi_complex",
+    # … and of its executable model Model/C11.duchiTheta (Props/C11DuchiModel.lean)
+    "sortDesc_perm", "sortDesc_sorted", "cumsum_eq", "duchi_zip_eq", "duchiTheta_kkt",
 ]]
+
+# Text for the integrator (harness/mkmanifest.py CLAIMED["C11"] is a shared file; these replace the two clauses
+# "Duchi's index search is certified per case …, not proved in general" and "psd_proj's spectral theorem is NOT proved").
+MANIFEST_TEXT_ADD = (
+    "thresh.psd_proj: its body is translator-generated (Gen/Prox.lean psdProjWith over the PsdOps record: Hermitian part, "
+    "eigh as a parameter, eigenvalue clamp, V diag(w) V^H) and proved (psd_proj_prox, any RCLike field) to be the Frobenius "
+    "projection onto the PSD cone of an arbitrary square input under the spectral contract of eigh (V^H V = I, "
+    "V diag(w) V^H = A, w real), via psd_proj_spectral (P PSD, H-P NSD, (H-P)P = 0, Re<H-P,Q-P> <= 0) and psd_proj_skew; "
+    "Duchi's sort/cumsum index search is proved to return a KKT threshold (duchi_theta over the generated l1projSt/"
+    "l1projCond; l1_proj_duchi_real/complex: soft_thresh(st[idx], y) is the l1-ball projection; duchiTheta_kkt for the "
+    "executable model).")
+MANIFEST_NOTE = (
+    "Trusted: Lean kernel; translator gen_c11 (symbolic execution of straight-line _prox bodies and numba kernels; "
+    "array-level extraction of psd_proj over PsdOps); numpy elementwise evaluation / sort / cumsum / flatnonzero.max / norm / "
+    "split-vec plumbing tied by correspondence (hypotheses of l1_proj_duchi_*: sort(..)[::-1] is a non-increasing arrangement, "
+    "cumsum the partial sums); numpy.linalg.eigh's spectral contract (hypothesis of psd_proj_prox; checked numerically on "
+    "every run incl. repeated eigenvalues) and the meaning of +, conj, .T, /k, @, broadcasting *, masked assignment fixed by "
+    "the PsdOps instances (Mathlib matrices vs exact arrays, compared with the real code on exact spectral data); IEEE "
+    "rounding not modelled.")
 
 KEY_L1 = "C11:l1_proj:feasible-shape"
 KEY_PSD = "C11:psd_proj:repeated-eigenvalues"
 TOL_CORR = 1e-12
+TOL_PSD = 1e-11   # eigh + two matrix products, n ≤ 5: observed ≤ 2.4e-15 relative; semantic differences are ≥ 1e-3
 
 
 def translate(ctx):
@@ -554,8 +586,9 @@ def run_impl(c, registry=None):
     return np.asarray(out), x0
 
 
-def compare(impl, model):
+def compare(impl, model, tol=None):
     """impl: ndarray or 'err …'; model: (shape, values) or 'err …' -> None when they agree"""
+    tol = TOL_CORR if tol is None else tol
     if isinstance(model, str) or isinstance(impl, str):
         if isinstance(model, str) and isinstance(impl, str):
             return None  # both refuse the request (counted as "both-raise", not as a non-trivial case)
@@ -566,7 +599,7 @@ def compare(impl, model):
     b = model[1]
     scale = max(1.0, float(np.max(np.abs(b))) if b.size else 1.0)
     d = float(np.max(np.abs(a - b))) if b.size else 0.0
-    if not d <= TOL_CORR * scale:
+    if not d <= tol * scale:
         return "max abs difference %.3g" % d
     return None
 
@@ -765,7 +798,8 @@ def exact_stream(ctx, n):
 
 
 def kkt_stream(ctx, n):
-    """Duchi's index search (model, exact) returns a threshold satisfying the hypotheses of l1_proj_kkt_*"""
+    """Duchi's index search (model, exact) returns a threshold satisfying the hypotheses of l1_proj_kkt_* — a theorem
+    since `duchiTheta_kkt`; evaluated here on the compiled driver as a cross-check (model = what the theorem is about)"""
     rng = ctx.rng
     lines = []
     for _ in range(n):
@@ -792,13 +826,177 @@ def kkt_stream(ctx, n):
                "%d thresholds fail the exact KKT certificate (θ ≥ 0, Σ(|y|-θ)₊ = ε)" % bad)
 
 
+# ---- PsdProj: exact spectral data (w, V) -> model = generated body with eigh := (w, V); real code on float(y) ----
+def c_mul(a, b):
+    return (a[0] * b[0] - a[1] * b[1], a[0] * b[1] + a[1] * b[0])
+
+
+def m_mul(A, B):
+    n, k, m = len(A), len(B), len(B[0])
+    out = []
+    for i in range(n):
+        row = []
+        for j in range(m):
+            re, im = Fr(0), Fr(0)
+            for l in range(k):
+                z = c_mul(A[i][l], B[l][j])
+                re += z[0]
+                im += z[1]
+            row.append((re, im))
+        out.append(row)
+    return out
+
+
+def m_H(A):
+    return [[(A[i][j][0], -A[i][j][1]) for i in range(len(A))] for j in range(len(A[0]))]
+
+
+def m_eye(n):
+    return [[(Fr(1 if i == j else 0), Fr(0)) for j in range(n)] for i in range(n)]
+
+
+def exact_unitary(rng, n, cplx):
+    """exactly unitary matrix with Gaussian-rational entries: Householder reflections I - 2 v vᴴ / vᴴv of small
+    Gaussian-integer vectors, unit phases (Pythagorean), a permutation"""
+    V = m_eye(n)
+    for _ in range(rng.choice([0, 1, 1, 2, 2, 3])):
+        while True:
+            v = [(Fr(rng.randint(-2, 2)), Fr(rng.randint(-2, 2)) if cplx else Fr(0)) for _ in range(n)]
+            nn = sum(z[0] * z[0] + z[1] * z[1] for z in v)
+            if nn > 0:
+                break
+        R = [[((Fr(1) if i == j else Fr(0)) - 2 * c_mul(v[i], (v[j][0], -v[j][1]))[0] / nn,
+               -2 * c_mul(v[i], (v[j][0], -v[j][1]))[1] / nn) for j in range(n)] for i in range(n)]
+        V = m_mul(V, R)
+    ph = [rng.choice(PHASES) if cplx else rng.choice(PHASES[:2]) for _ in range(n)]
+    perm = list(range(n))
+    rng.shuffle(perm)
+    return [[c_mul(V[i][perm[j]], ph[j]) for j in range(n)] for i in range(n)]
+
+
+def psd_exact_case(rng):
+    """(n, cplx, y exact, w exact, V exact, kind): y = V diag(w) Vᴴ + K, K skew-Hermitian (possibly 0)"""
+    n = rng.choice([1, 2, 2, 3, 3, 3, 4, 4, 5])
+    cplx = rng.random() < 0.5
+    V = exact_unitary(rng, n, cplx)
+    kind = rng.choice(["repeated", "repeated", "generic", "generic", "psd", "negdef", "zero-eigs", "all-equal"])
+    if kind == "repeated":
+        a, b = rq(rng), rq(rng)
+        w = [rng.choice([a, a, b, -a]) for _ in range(n)]
+    elif kind == "psd":
+        w = [abs(rq(rng)) for _ in range(n)]
+    elif kind == "negdef":
+        w = [-abs(rq(rng)) - Fr(1, 4) for _ in range(n)]
+    elif kind == "zero-eigs":
+        w = [rng.choice([Fr(0), Fr(0), rq(rng)]) for _ in range(n)]
+    elif kind == "all-equal":
+        w = [rq(rng)] * n
+    else:
+        w = [rq(rng) for _ in range(n)]
+    D = [[(w[i] if i == j else Fr(0), Fr(0)) for j in range(n)] for i in range(n)]
+    y = m_mul(m_mul(V, D), m_H(V))
+    herm = rng.random() < 0.4
+    if not herm:
+        for i in range(n):
+            for j in range(i, n):
+                a = rq(rng, -4, 4) if i != j else Fr(0)
+                b = rq(rng, -4, 4) if cplx else Fr(0)
+                y[i][j] = (y[i][j][0] + a, y[i][j][1] + b)
+                if i != j:
+                    y[j][i] = (y[j][i][0] - a, y[j][i][1] + b)
+    return n, cplx, y, w, V, kind + ("" if herm else "+skew")
+
+
+def eigh_contract_violation(A):
+    """numpy's contract for the decomposition `psd_proj` calls (the hypothesis `EighContract` of psd_proj_prox):
+    real eigenvalues, VᴴV = I, V diag(w) Vᴴ = A — returns None or a description"""
+    w, V = np.linalg.eigh(A)
+    n = A.shape[0]
+    sc = max(1.0, float(np.max(np.abs(A), initial=0)))
+    if np.iscomplexobj(w):
+        return "complex eigenvalues"
+    e1 = float(np.max(np.abs(V.conj().T @ V - np.eye(n)), initial=0))
+    e2 = float(np.max(np.abs((V * w) @ V.conj().T - A), initial=0))
+    if e1 > 1e-12 * n or e2 > 1e-12 * n * sc:
+        return "‖VᴴV - I‖ = %.3g, ‖V diag(w) Vᴴ - A‖ = %.3g" % (e1, e2)
+    return None
+
+
+def psd_stream(ctx, n):
+    """`thresh.psd_proj` / `prox.PsdProj` vs the generated body run by the driver on exact spectral data, and
+    the numerical contract of numpy's eigh at every matrix passed to it"""
+    from sigpy import prox, thresh
+    rng = ctx.rng
+    cases, lines = [], []
+    for _ in range(n):
+        m, cplx, y, w, V, kind = psd_exact_case(rng)
+        x = [[str(z[0]), str(z[1])] for row in y for z in row]
+        c = dict(tree=dict(t="psd", shape=[m, m]), alpha=str(rpos(rng)), shape=[m, m], x=x, cplx=cplx, note=kind)
+        cases.append(c)
+        lines.append("C11 psd n=%d y=%s v=%s w=%s" % (m, CL(x), CL([z for row in V for z in row]), ",".join(fs(v) for v in w)))
+    bad = cbad = 0
+    for c, ln, r in zip(cases, lines, ctx.driver(lines)):
+        m = c["shape"][0]
+        ctx.case(ln, sample=dict(line=ln[:240], reply=r[:160]) if ctx.evaluations % 61 == 0 else None,
+                 nontrivial=(m > 1))
+        ctx.count("psd:" + c["note"])
+        ctx.count("psd:n=%d:%s" % (m, "complex" if c["cplx"] else "real"))
+        if not r.startswith("ok "):
+            # the exact data are a spectral decomposition by construction: a refusal is a model/translation defect
+            bad += 1
+            ctx.disagree("psd", c, "n/a", r)
+            continue
+        vals = [complex(float(Fr(z.split(";")[0])), float(Fr(z.split(";")[1])) if ";" in z else 0.0) for z in r[3:].split(",")]
+        model = ([m, m], np.array(vals))
+        yf = to_float(c["x"], c["shape"], c["cplx"])
+        A = (yf + np.conj(yf).T) / 2
+        why = eigh_contract_violation(A)
+        if why is not None:
+            cbad += 1
+            ctx.disagree("eigh-contract", c, why, "VᴴV = I, V diag(w) Vᴴ = A")
+        for which in ("thresh", "prox"):
+            try:
+                if which == "thresh":
+                    impl = np.asarray(thresh.psd_proj(yf.copy()))
+                else:
+                    impl = np.asarray(prox.PsdProj([m, m])(float(Fr(c["alpha"])), yf.copy()))
+            except Exception as e:  # noqa
+                impl = "err %s" % type(e).__name__
+            if compare(impl, model, TOL_PSD) is not None:
+                bad += 1
+                ctx.disagree("psd", c, impl if isinstance(impl, str) else (list(impl.shape), impl.ravel().tolist()[:12]),
+                             (model[0], model[1].tolist()[:12]))
+                break
+    # the contract also on float matrices with (numerically) repeated eigenvalues that have no exact data
+    for _ in range(n // 4):
+        yf, kind = psd_inputs(rng, rng.choice([2, 3, 4, 6]), rng.random() < 0.5)
+        A = (yf + np.conj(yf).T) / 2
+        ctx.case(("eigh", kind, repr(A.tolist())[:200]))
+        why = eigh_contract_violation(A)
+        if why is not None:
+            cbad += 1
+            ctx.disagree("eigh-contract", case_json(dict(tree=dict(t="psd", shape=list(yf.shape)), alpha="1",
+                                                         shape=list(yf.shape), y=yf, cplx=bool(np.iscomplexobj(yf)),
+                                                         note=kind)), why, "contract")
+    ctx.oblige("correspondence:C11.psd", "correspondence", bad == 0,
+               "%d disagreements between psd_proj / PsdProj and the generated body on exact spectral data" % bad)
+    ctx.oblige("correspondence:C11.eigh-contract", "correspondence", cbad == 0,
+               "%d matrices where numpy.linalg.eigh violates VᴴV = I, V diag(w) Vᴴ = A (hypothesis of psd_proj_prox)" % cbad)
+
+
 def correspond(ctx):
     ctx.rule = ("cases = (Prox tree over NoOp/L1Reg/L2Reg(+bias,+proxh)/L2Proj(+bias,+axes)/LInfProj(+bias)/L1Proj/"
                 "BoxConstraint/Conj/Stack/UnitaryTransform, alpha > 0, shape 1-3 D, exactly representable input: small "
                 "rationals times Pythagorean unit phases, zeros, ties, points on thresholds / ball boundaries, vectors with "
                 "rational norm); distinct by protocol line; a case counts only when every modulus / norm needed is rational")
     ctx.assumptions += [
-        "PsdProj is not in the executable model (eigendecomposition); it is covered by the search oracle only",
+        "numpy.linalg.eigh is a trusted primitive: psd_proj_prox assumes its spectral contract (real eigenvalues w, "
+        "VᴴV = I, V diag(w) Vᴴ = A) at the matrix psd_proj passes to it; the contract is checked numerically on every run "
+        "(stream eigh-contract: exact-data matrices and float matrices with repeated eigenvalues, 1e-12·n)",
+        "the PsdOps record fixes the meaning of numpy's +, conj, .T, / k, @, broadcasting * and masked assignment "
+        "(Mathlib matrices in Props/C11Psd.matOps, exact arrays in Model/C11Psd.cqOps); stream psd compares the real "
+        "psd_proj / PsdProj on float(y) with the generated body on exact spectral data (w, V) of the Hermitian part "
+        "(Householder / phase / permutation unitaries, repeated and zero eigenvalues, skew parts), 1e-11",
         "the dense matrix of a permutation-type Linop (Transpose/Flip/Circshift/Reshape) handed to the model is obtained "
         "by probing the real Linop with basis vectors (Linop correctness is C01/C03/C09's subject)",
         "float execution of the real classes is compared with the exact model at 1e-12 (relative to max(1, |value|))",
@@ -812,6 +1010,7 @@ def correspond(ctx):
     thresh_cases(ctx, 400 if q else 3000)
     exact_stream(ctx, 400 if q else 3000)
     kkt_stream(ctx, 400 if q else 3000)
+    psd_stream(ctx, 300 if q else 2500)
     ctx.traces = ctx.evaluations
 
 
@@ -1349,6 +1548,8 @@ def search(ctx, budget):
         c = d["case"]
         if not isinstance(c, dict):
             continue
+        if "y_re" in c:
+            c = case_from_json(c)
         if "fn" in c:
             if c["fn"] != "l1":
                 continue
